@@ -5,26 +5,17 @@ import ShVerif.Proofs.C26o
 namespace ShVerif.C26
 open ShVerif.L5 ShVerif.L5.Bash
 
-theorem expandWord_closed (v1 v2 : List (Str × Str)) (c : Nat) :
-    ∀ w : Word, w.all partClosed = true → expandWord v1 c w = expandWord v2 c w
-  | [], _ => rfl
-  | p :: r, h => by
-    simp only [List.all_cons, Bool.and_eq_true] at h
-    rw [expandWord, expandWord, expandWord_closed v1 v2 c r h.2]
-    cases p with
-    | lit s => rfl
-    | var x => simp [partClosed] at h
-    | status => rfl
-
 /-- Relation between the runner and `BashSem` while a simple trap action runs. -/
 def TrapRel : Option St → Res → Prop
   | none, none => True
   | some s', some (fl, e') =>
-    fl = .norm ∧ s'.out = e'.out ∧ s'.handlingTrap = true ∧ s'.lastExit.code = e'.status
+    fl = .norm ∧ s'.out = e'.out ∧ s'.handlingTrap = true ∧ s'.lastExit.code = e'.status ∧
+      s'.vars = e'.vars
   | _, _ => False
 
 theorem simple_trap_stmt (n : Nat) (k : Ctx) (st : Stmt) (hst : simpleTrapStmt st = true) (s : St)
-    (e : Env) (hh : s.handlingTrap = true) (ho : s.out = e.out) (hs : s.lastExit.code = e.status) :
+    (e : Env) (hh : s.handlingTrap = true) (ho : s.out = e.out) (hs : s.lastExit.code = e.status)
+    (hv : s.vars = e.vars) :
     TrapRel (run n (.stmt st) s) (sem n k (.stmt st) e) := by
   have hns : stop s = false := by simp [stop, hh]
   obtain ⟨neg, c⟩ := st
@@ -40,22 +31,21 @@ theorem simple_trap_stmt (n : Nat) (k : Ctx) (st : Stmt) (hst : simpleTrapStmt s
     | succ m =>
       cases c <;> simp [simpleTrapStmt] at hst
       case tru =>
-        simp [run, sem, stop, hh, mwrap, swrap, Cmd.isAndOr, Exit.ok, TrapRel, ho]
+        simp [run, sem, stop, hh, mwrap, swrap, Cmd.isAndOr, Exit.ok, TrapRel, ho, hv]
       case echo w =>
-        have := expandWord_closed s.vars e.vars e.status w (by simpa [List.all_eq_true] using hst)
-        simp [run, sem, stop, hh, mwrap, swrap, Cmd.isAndOr, Exit.ok, TrapRel, ho, hs, this]
+        simp [run, sem, stop, hh, mwrap, swrap, Cmd.isAndOr, Exit.ok, TrapRel, ho, hs, hv]
 
 theorem simple_trap_list (n : Nat) (k : Ctx) :
     ∀ (body : Prog), simpleTrap body = true → ∀ (s : St) (e : Env), s.handlingTrap = true →
-      s.out = e.out → s.lastExit.code = e.status →
+      s.out = e.out → s.lastExit.code = e.status → s.vars = e.vars →
       TrapRel (foldStmts (fun st => run n (.stmt st)) body s)
         (seqList (fun st => sem n k (.stmt st)) body e)
-  | .nil, _, s, e, hh, ho, hs => by
+  | .nil, _, s, e, hh, ho, hs, hv => by
     simp only [foldStmts, seqList, TrapRel]
-    exact ⟨trivial, ho, hh, hs⟩
-  | .cons st rest, hsim, s, e, hh, ho, hs => by
+    exact ⟨trivial, ho, hh, hs, hv⟩
+  | .cons st rest, hsim, s, e, hh, ho, hs, hv => by
     simp only [simpleTrap, Bool.and_eq_true] at hsim
-    have h0 := simple_trap_stmt n k st hsim.1 s e hh ho hs
+    have h0 := simple_trap_stmt n k st hsim.1 s e hh ho hs hv
     rw [foldStmts, seqList]
     cases hr : run n (.stmt st) s with
     | none =>
@@ -70,13 +60,14 @@ theorem simple_trap_list (n : Nat) (k : Ctx) :
       | some r =>
         rw [hq] at h0
         obtain ⟨fl, e1⟩ := r
-        obtain ⟨h1, h2, h3, h4⟩ := h0
+        obtain ⟨h1, h2, h3, h4, h5⟩ := h0
         subst h1
-        exact simple_trap_list n k rest hsim.2 s1 e1 h3 h2 h4
+        exact simple_trap_list n k rest hsim.2 s1 e1 h3 h2 h4 h5
 
 /-- The EXIT trap at the end of a run: same output on both sides, status untouched. -/
 theorem sim_exit_trap (n : Nat) (body : Prog) (hsim : simpleTrap body = true) (s : St) (e : Env)
-    (hh : s.handlingTrap = false) (ho : s.out = e.out) (hs : s.exit.code = e.status) :
+    (hh : s.handlingTrap = false) (ho : s.out = e.out) (hs : s.exit.code = e.status)
+    (hv : s.vars = e.vars) :
     match run n (.trap body) s, sem n {} (.trap body) e with
     | none, none => True
     | some s2, some (_, e2) => s2.out = e2.out ∧ s2.exit.code = e2.status
@@ -104,7 +95,7 @@ theorem sim_exit_trap (n : Nat) (body : Prog) (hsim : simpleTrap body = true) (s
         rw [sem]; simp only [hb, Bool.false_or, Bool.false_eq_true, ↓reduceIte]; rfl
       rw [hrun, hsem]
       have h0 := simple_trap_list m { ({} : Ctx) with inTrap := true, trapSt := e.status, ign := false }
-        body hsim { s with handlingTrap := true, lastExit := s.exit } e rfl ho hs
+        body hsim { s with handlingTrap := true, lastExit := s.exit } e rfl ho hs hv
       cases hr : foldStmts (fun st => run m (.stmt st)) body
           { s with handlingTrap := true, lastExit := s.exit } with
       | none =>
@@ -121,7 +112,7 @@ theorem sim_exit_trap (n : Nat) (body : Prog) (hsim : simpleTrap body = true) (s
         | some r =>
           rw [hq] at h0
           obtain ⟨fl, e1⟩ := r
-          obtain ⟨h1, h2, _, _⟩ := h0
+          obtain ⟨h1, h2, _, _, _⟩ := h0
           subst h1
           exact ⟨h2, hs⟩
 
@@ -132,6 +123,7 @@ structure EndRel (s : St) (e1 : Env) : Prop where
   tr : e1.trapExit = s.callbackExit
   simple : simpleTrap s.callbackExit = true
   ht : s.handlingTrap = false
+  vars : s.vars = e1.vars
 
 theorem file_tail (fuel : Nat) (s : St) (e1 : Env) (h : EndRel s e1) :
     (match run fuel (.trap ({ s with lastExit := s.exit } : St).callbackExit) { s with lastExit := s.exit } with
@@ -142,7 +134,7 @@ theorem file_tail (fuel : Nat) (s : St) (e1 : Env) (h : EndRel s e1) :
             | some (_, e2) => some (Flow.norm, e2)) with
      | none => none
      | some (_, e) => some (e.out, e.status)) := by
-  have h0 := sim_exit_trap fuel s.callbackExit h.simple { s with lastExit := s.exit } e1 h.ht h.out h.st
+  have h0 := sim_exit_trap fuel s.callbackExit h.simple { s with lastExit := s.exit } e1 h.ht h.out h.st h.vars
   rw [h.tr]
   show (match run fuel (.trap s.callbackExit) { s with lastExit := s.exit } with
      | none => none
@@ -183,7 +175,7 @@ theorem run_eq_sem_file (e : Bool) (fuel : Nat) (p : Prog) (hsup : supportedProg
       | cons _ _ => simp [Prog.isNil] at hp
     subst hpn
     simp only [foldStmts, seqList]
-    exact file_tail fuel {} {} ⟨rfl, rfl, rfl, rfl, rfl⟩
+    exact file_tail fuel {} {} ⟨rfl, rfl, rfl, rfl, rfl, rfl⟩
   | false =>
     have h0 := sim_list fuel (sim_all fuel).1 p { e := e } false {} false {} hp hst hsup hd
       ⟨rfl, rfl⟩ ⟨rfl, rfl⟩ ⟨rfl, rfl⟩
@@ -200,7 +192,7 @@ theorem run_eq_sem_file (e : Bool) (fuel : Nat) (p : Prog) (hsup : supportedProg
         | norm =>
           obtain ⟨h1, h2, _⟩ := hpo
           subst h1
-          exact ⟨rfl, rfl, rfl, h2.csub.2, h2.ht⟩
+          exact ⟨rfl, rfl, rfl, h2.csub.2, h2.ht, rfl⟩
         | brk m =>
           obtain ⟨_, _, _, _, _, _, hlv, _⟩ := hpo
           exact absurd hlv (not_levels_nil _ m rfl)
@@ -211,8 +203,8 @@ theorem run_eq_sem_file (e : Bool) (fuel : Nat) (p : Prog) (hsup : supportedProg
           obtain ⟨_, _, _, _, _, hfn, _⟩ := hpo
           cases hfn
         | exit =>
-          obtain ⟨_, _, h3, h4, h5, h6, h7, _, _⟩ := hpo
-          exact ⟨h4.symm, h3.symm, h5, h6.2, h7⟩
+          obtain ⟨_, _, h3, h4, h5, h6, h7, _, _, h10⟩ := hpo
+          exact ⟨h4.symm, h3.symm, h5, h6.2, h7, h10.symm⟩
       exact file_tail fuel s e1 hend
 
 end ShVerif.C26
